@@ -106,7 +106,15 @@ Proof. intros. apply cgp_loop_bound. lia. Qed.
 
 (* ---------- arithmetic of quantisation / modulo reduction / reconstruction ---------- *)
 
+Lemma pow2_bounds : forall P, 2 <= P <= 16 -> 4 <= 2 ^ P <= 65536.
+Proof.
+  intros P HP. split.
+  - change 4 with (2 ^ 2). apply Z.pow_le_mono_r; lia.
+  - change 65536 with (2 ^ 16). apply Z.pow_le_mono_r; lia.
+Qed.
+
 Section Arith.
+  Local Set Default Proof Using "All".
   Variables (p : jparams) (P : Z).
   Let mv := jp_maxval p.
   Let n := jp_near p.
@@ -221,7 +229,7 @@ Section Arith.
     destruct (Z.eqb_spec n 0) as [E0|NE0]; cbn [andb].
     - (* NEAR = 0: value & MAXVAL *)
       rewrite land_mv. rewrite E0 in *.
-      assert (HR0 : R = 2 ^ P) by (rewrite HR, E0; change (2 * 0 + 1) with 1; rewrite Z.div_1_r; lia).
+      assert (HR0 : R = 2 ^ P) by (rewrite HR; change (2 * 0 + 1) with 1; rewrite Z.div_1_r; lia).
       assert (Hqd : q = sg * (x - pv)) by lia.
       assert (Hval : exists j, pv + sg * e * (2 * 0 + 1) = x + j * 2 ^ P).
       { rewrite <- HR0.
@@ -235,11 +243,17 @@ Section Arith.
       { destruct Hj as [Hj | [Hj | Hj]]; rewrite Hj; [left | right; left | right; right]; unfold QS, RS; ring. }
       replace (sg * e * (2 * n + 1)) with (sg * (e * (2 * n + 1))) by ring.
       set (ES := e * (2 * n + 1)) in *.
-      destruct Hsg as [-> | ->]; destruct Hes as [Hes | [Hes | Hes]]; rewrite Hes;
-        repeat match goal with
-               | |- context [?a <? ?b] => destruct (Z.ltb_spec a b)
-               | |- context [?a >? ?b] => destruct (Z.gtb_spec a b)
-               end; lia.
+      assert (Hfix : exists t,
+                 (if pv + sg * ES <? - n then pv + sg * ES + RS
+                  else if pv + sg * ES >? mv + n then pv + sg * ES - RS else pv + sg * ES) = t /\
+                 - n <= t - x <= n).
+      { destruct Hsg as [-> | ->]; destruct Hes as [Hes | [Hes | Hes]]; rewrite Hes;
+          repeat match goal with
+                 | |- context [?a <? ?b] => destruct (Z.ltb_spec a b)
+                 | |- context [?a >? ?b] => destruct (Z.gtb_spec a b)
+                 end; eexists; (split; [reflexivity | lia]). }
+      destruct Hfix as (t & Ht & Hb). rewrite Ht.
+      destruct (Z.ltb_spec t 0); [lia|]. destruct (Z.gtb_spec t mv); lia.
   Qed.
 
   (* the mapped error fits the escape code *)
@@ -290,7 +304,7 @@ Proof.
   set (k := ComputeGolombParameter c) in *.
   set (pv := CorrectPrediction p (Predict ra rb rc + ApplySign (cC c) sign)) in *.
   assert (Hpv : 0 <= pv <= jp_maxval p).
-  { unfold pv, CorrectPrediction. assert (0 <= jp_maxval p) by (rewrite Fmv; pose proof (pow_P_bounds P HP); lia).
+  { unfold pv, CorrectPrediction. assert (0 <= jp_maxval p) by (rewrite Fmv; pose proof (pow2_bounds P HP); lia).
     destruct (Z.ltb_spec (Predict ra rb rc + ApplySign (cC c) sign) 0); [lia|].
     destruct (Z.gtb_spec (Predict ra rb rc + ApplySign (cC c) sign) (jp_maxval p)); lia. }
   unfold pk_error, Traits_ComputeErrorValue in Henc.
@@ -307,14 +321,15 @@ Proof.
   destruct (quantize_spec p P HP Fmv Hn0 Hn2 HR _ Hd) as [_ Hq2]. fold q in Hq2.
   destruct (mapped_range p P HP Fmv Hn0 Hn2 HR q ec Hq2 Hec) as [Hm0 Hm1]. fold e in Hm0, Hm1.
   destruct (ModuloRange_spec p P HP Fmv Hn0 Hn2 HR q Hq2) as [_ Herange]. fold e in Herange.
-  pose proof (R_le p P HP Fmv Hn0 Hn2 HR) as HRl. pose proof (pow_P_bounds P HP) as Hpb.
+  pose proof (R_le p P HP Fmv Hn0 Hn2 HR) as HRl. pose proof (pow2_bounds P HP) as Hpb.
   destruct (reconstruct_near p P HP Fmv Hn0 Hn2 HR pv x sg (sgn_of_cases qs) Hpv ltac:(lia)) as [Hb1 Hb2].
   fold q e in Hb1, Hb2.
   set (x' := ComputeReconstructedSample p pv (sg * e)) in *.
   inversion Henc as [[Hops Hc' Hst]]. clear Henc.
   exists x'. unfold regular_dec. cbv zeta. fold sign k pv.
-  rewrite golomb_roundtrip; try lia.
-  2:{ intros _. lia. }
+  rewrite golomb_roundtrip by lia.
+  assert (Hhalves : jp_range p / 2 <= jp_range p /\ (jp_range p + 1) / 2 <= jp_range p)
+    by (Z.div_mod_to_equations; lia).
   rewrite Unmap_Map.
   2:{ destruct (lxor_ec_value ec e Hec) as [Hv|Hv]; rewrite Hv; change (2 ^ 31) with 2147483648; lia. }
   assert (Herr : (if k =? 0 then Z.lxor (Z.lxor ec e) (GetErrorCorrection c k (jp_near p)) else Z.lxor ec e) = e).
@@ -345,7 +360,7 @@ Theorem sample_exact : forall P store c qs ra rb rc x rest ops c' stored,
 Proof.
   intros P store c qs ra rb rc x rest ops c' stored HP Hx Henc.
   assert (Hn : 0 <= 0 <= near_max P).
-  { unfold near_max. pose proof (pow_P_bounds P HP). assert (0 <= (2 ^ P - 1) / 2) by (apply Z.div_pos; lia). lia. }
+  { unfold near_max. pose proof (pow2_bounds P HP). assert (0 <= (2 ^ P - 1) / 2) by (apply Z.div_pos; lia). lia. }
   rewrite regular_enc_lossless_near0 in Henc
     by (destruct (jls_params_facts P 0 HP Hn); assumption).
   destruct (sample_near P 0 store c qs ra rb rc x rest ops c' stored HP Hn Hx Henc)
